@@ -396,8 +396,10 @@ theorem clientRead_ok (sid : Sid) (as : List A) (g : G) (hn : NoFlag g) (hh : Ha
     have hd := dataCb_ok sid hn hh
     have := ih (Closed0.dataCb _ _ hn) ((has_of_table_eq hd.2 sid).2 hh)
     exact ⟨this.1.trans hd.1, this.2⟩
-  · have hd := dataCb_ok sid hn hh
-    exact ⟨hd.1, fun _ => (has_of_table_eq hd.2 sid).2 hh⟩
+  · rename_i ih
+    have hd := dataCb_ok sid hn hh
+    have := ih (Closed0.dataCb _ _ hn) ((has_of_table_eq hd.2 sid).2 hh)
+    exact ⟨this.1.trans hd.1, this.2⟩
   · exact ⟨rfl, fun _ => hh⟩
   · exact ⟨by simp, by simp⟩
 
